@@ -42,9 +42,15 @@ class FN:
     yields: List[Tuple[str, str]] = field(default_factory=list)
     ends: List[Tuple[str, str]] = field(default_factory=list)
     generator: bool = False
+    # region verification: start at the (top-level) loop with this ordinal; the statements before it are trusted
+    # to establish `requires` over the locals listed in `types` (stated as an assumption)
+    start_at_loop: Optional[int] = None
     hints: List[str] = field(default_factory=list)   # proof hints: asserted (own obligation) then assumed
     # ghost snapshots taken right after an assignment to the named local: {local: {ghost: expr}}
     ghost_at_assign: Dict[str, Dict[str, str]] = field(default_factory=dict)
+    # intermediate assertions (proof hints): proved once right after an assignment to the named local, then
+    # available as a fact on the rest of that path  {local: [expr, ...]}
+    assert_after_assign: Dict[str, List[str]] = field(default_factory=dict)
     inst_terms: List[str] = field(default_factory=list)  # terms at which quantified facts of the pc are instantiated
     # exceptional postconditions: (ExcName, expr over the exit state) checked at raise exits, assumed by callers
     on_raise: List[Tuple[str, str]] = field(default_factory=list)
